@@ -6,7 +6,9 @@ LEVEL = "fault_enumeration"
 LEVEL_TEXT = ("RecCorrupt.tla extends the segment file model of RecFile.tla with structural corruptions of the box tree the recorder "
               "writes (drop/duplicate/swap children of the file, moov, moof, traf; zero/1/7/-1/+1/max of every numeric field the "
               "parsers read: sizes, versions, flags, timescales, track ids, sample counts, offsets, durations, sample sizes), foreign "
-              "files and non-files (directory, symlinks) where a segment is expected; TLC enumerates the shapes; the harness builds each "
+              "files and non-files (directory, symlinks) where a segment is expected, and directories of two or three recorder files with "
+              "individually valid but mutually inconsistent headers (extra/missing track, other codec, other timescale x mtxi continuing / "
+              "not continuing / absent); TLC enumerates the shapes; the harness builds each "
               "from a segment recorded by the real recorder, alone and between two good segments, and queries the real playback server "
               "(list, list window, get fmp4, get window, get mp4) and the real API recordings endpoints (list, get, deletesegment) in "
               "child processes; TLC evaluates 'answered with data or an error and process alive' on every observation; the crash-tail "
@@ -27,6 +29,8 @@ def shape_name(sh):
         return "%s.%s=%s" % (sh["box"], sh["field"], sh["val"])
     if sh["kind"] == "foreign":
         return "foreign:" + sh["what"]
+    if sh["kind"] == "pair":
+        return "pair:%s/%s/%d" % (sh["incons"], sh["mtxi"], sh["files"])
     if sh["kind"] == "swap":
         return "swap:%s[%d,%d]" % (sh["parent"], sh["a"], sh["b"])
     return "%s:%s[%d]" % (sh["kind"], sh["parent"], sh["a"])
@@ -40,8 +44,8 @@ def run(ctx):
     if len(cases) < 1000:
         raise vf.Infra("generator produced only %d shapes" % len(cases))
     if not ctx.thorough:
-        # quick: every shape alone, and a seed-chosen third of them between good segments
-        cases = [c for c in cases if c["nb"] == "alone" or (c["id"] + ctx.seed) % 3 == 0]
+        # quick: every shape alone, and a seed-chosen sixth of them between good segments
+        cases = [c for c in cases if c["nb"] in ("alone", "pair") or (c["id"] + ctx.seed) % 6 == 0]
     cf = vf.write_ndjson(ctx.path("shapes.ndjson"), cases)
     keep = ctx.path("c28dirs")
     os.makedirs(keep)
